@@ -272,8 +272,9 @@ class Stream:
                     self._t_target = self._t_supply + 0.01
                     self._set_cold_stream_min_max_temperatures()
                 elif self._heat_flow < 0.0:
-                    # Hot stream
+                    # Hot stream: the sign only marks the direction; the duty itself is positive like that of every other stream
                     self._t_target = self._t_supply - 0.01
+                    self._heat_flow = -self._heat_flow
                     self._set_hot_stream_min_max_temperatures()
 
         if isinstance(self._heat_flow, float | int):
